@@ -269,6 +269,11 @@ def build_verbs_case(r, tier):
     fmt = r.choice(["dkvp", "json"])
     text = gen.to_dkvp(recs) if fmt == "dkvp" else gen.to_json([rec for rec in recs])
     vs = [r.choice(gen.BY_TAG[r.choice(["S", "S", "N", "N", "P"])])(r) for _ in range(r.randint(1, 3))]
+    if r.chance(0.25):
+        # stages of the same kind side by side (regex, formatting, grouping): what they share behind the scenes is used
+        # by several goroutines at once
+        pool = r.choice(gen.SAME_KIND)
+        vs = [r.choice(pool)(r) for _ in range(r.randint(2, 3))]
     vs = [v for v in vs if v[0] not in ("seqgen", "tee", "split")] or [["cat"]]
     return {"kind": "verbs", "fmt": "verbs-" + fmt, "flags": ["--ijson"] if fmt == "json" else [], "data": text, "name": "in.dat", "mutations": [], "faults": [],
             "verbs": gen.chain_args(vs), "oflags": r.choice([["--ojson"], [], ["--oxtab"], ["--opprint"], ["--ocsvlite"]]), "stdin": False,
@@ -395,6 +400,11 @@ def evaluate(case, chk):
             vd.notes["runs_with_fault_applied"] = vd.notes.get("runs_with_fault_applied", 0) + 1
         vd.notes["fmt:" + case["fmt"]] = 1
         cfgs_ = json.loads(json.dumps(cfg))
+        if r.map_races:
+            # the condition under which the Go runtime ends the real, parallel process with "fatal error: concurrent map
+            # read and map write" (shared-map discipline check of the simulator, DESIGN section 12)
+            vd.add("unsynchronised-shared-map", fmt=case["fmt"], flags=case["flags"], config=cfgs_, maps=r.map_races[:4])
+            break
         if r.status == "panic":
             vd.add("panic", fmt=case["fmt"], flags=case["flags"], mutations=case["mutations"], config=cfgs_, text=r.panic_text[-1500:])
             break
